@@ -382,6 +382,11 @@ def run(prog: Program, rep, tier="quick"):
     for o in rep.obs[before:]:
         o.rule = "R08.5"
     rep.rule("R08.5", "packed-refs cache: identity compared before use, recorded from the open file (fstat), read only through its accessor")
+    from sa.common import share
+    from rules import c07
+    share(rep, lambda: c07.r07_1(prog, rep), "R08.6", lambda o: o.rule in ("R07.1a", "R07.1c", "R07.1d", "R07.1g"),
+          "the lock every conditional ref update relies on (shared with R07.1): exclusive acquisition, a failed acquisition unlinks nothing, "
+          "no unlink after the rename, ownership flag agrees - otherwise two writers end up inside one ref's lock")
     from sa.common import alias_guard
     alias_guard(prog, rep, "R08.4", {"set_if_equals", "remove_if_equals", "add_if_new"})
     rep.floor("R08.5", 5)
